@@ -169,8 +169,10 @@ class Session:
 
 def run_trace(spec):
     """spec = {id, revs, declined?, hb?, nin?, nout?}  ->  trace record for SessionEval."""
+    from .net import RecClient, RecServer
+    cls = {"server": RecServer, "client": RecClient}.get(spec.get("cls"), RecConn)     # the subclasses fix the role at construction
     s = Session(declined=spec.get("declined", ()), hb=spec.get("hb", 30), nin=spec.get("nin", 1), nout=spec.get("nout", 1),
-                scale=spec.get("scale", 1), phase=spec.get("phase", 0))
+                scale=spec.get("scale", 1), phase=spec.get("phase", 0), cls=cls)
     err = None
     try:
         with watchdog(spec.get("watchdog", 30)):
